@@ -70,7 +70,8 @@ Record env_valid (cs : cmdset) (handler : nat -> list N -> list (list N) -> list
   ev_handler : forall n name args, Forall hop_valid (handler n name args);
   ev_list : Forall hop_valid (cs_list_help cs);
   ev_help : forall n a hs, cs_cmd_help cs n a = Some hs -> Forall hop_valid hs;
-  ev_parse : forall n a e, Forall valid_tok (n :: a) -> cs_parse cs n a = Some e -> perr_valid e }.
+  ev_parse : forall n a e, Forall valid_tok (n :: a) -> cs_parse cs n a = Some e -> perr_valid e;
+  ev_fail : forall k n a e, Forall valid_tok (n :: a) -> cs_fail cs k n a = Some e -> perr_valid e }.
 
 (* ---------- a small Hoare logic: under invariant P every write is valid and P is kept *)
 Definition PA (s : cli) : Prop := valid_tok (prompt s) /\ match newp s with Some p => valid_tok p | None => True end.
@@ -195,7 +196,9 @@ Section LevelA.
       apply VS_bind_get. intros s1 H1.
       apply VS_bind. { destruct (newp s1) as [p|] eqn:En; [|apply VS_ret]. apply VS_modify; [intros; apply (io_set_prompt P HP); [assumption|exact (io_newp_valid P HP s1 p H1 En)]|reflexivity]. }
       intros. apply VS_bind; [destruct (is_dirty (wst s1)); [apply VS_wr; [assumption|vconst]|apply VS_ret]|intros].
-      apply VS_bind; [apply VS_fl; assumption|intros; apply VS_reraise].
+      apply VS_bind; [apply VS_fl; assumption|intros]. apply VS_bind; [apply VS_reraise|intros].
+      destruct (cs_fail cs (length (hcalls s0)) name args) as [e|] eqn:Ef; [|apply VS_ret].
+      apply VS_process_error. exact (ev_fail _ _ Henv _ name args e Hv Ef).
   Qed.
   Lemma VS_process_help req : VS P (process_help okf cs req).
   Proof.
